@@ -312,9 +312,16 @@ def run(tier, seed, replay=None):
         # ---- valid Python of any shape: the clause x statement matrix (all analyses, incl. the import graph) ---------------------------------------
         cells = shape_matrix()
         hist["shape_cells"] = len(cells)
-        what = shape_run(cells, os.path.join(tmp, "shapes"), 240)
+        # the matrix is analysed in 8 slices side by side (each slice is one project with all analyses); a failing slice is bisected below
+        from concurrent.futures import ThreadPoolExecutor
+        allnames = sorted(cells)
+        slices = [allnames[k::8] for k in range(8)]
+        with ThreadPoolExecutor(8) as ex:
+            outcomes = list(ex.map(lambda kv: shape_run({n: cells[n] for n in kv[1]}, os.path.join(tmp, "shapes%d" % kv[0]), 240), enumerate(slices)))
+        hist["shape_slices"] = len(slices)
+        what = next((o for o in outcomes if o), None)
         if what:
-            names = sorted(cells)
+            names = sorted(slices[[bool(o) for o in outcomes].index(True)])
             while len(names) > 1:            # bisect to one failing cell (a failure that needs two files keeps the larger set)
                 half = names[:len(names) // 2]
                 if shape_run({n: cells[n] for n in half}, os.path.join(tmp, "shapes"), 40):
